@@ -462,3 +462,91 @@ func checkC06Reuse(c *Ctx, n int) {
 		})
 	}
 }
+
+// checkC06BeforeCommand: a required option (or a required positional argument) is missing AND the
+// command line stops short of a subcommand that is required (none given, or an unknown word): what is
+// reported is the missing item - ErrRequired naming exactly it -, whatever else is wrong further on.
+func checkC06BeforeCommand(c *Ctx, n int) {
+	r := c.Rng
+	for i := 0; i < n; i++ {
+		level := r.Intn(2) // the required item sits on the parser (0) or on the command `remote` (1)
+		positional := r.Intn(3) == 0
+		item := FieldDesc{Name: "Token", Exported: true, Kind: "v", Ty: "str", Tag: `long:"token" required:"yes"`}
+		if positional {
+			item = FieldDesc{Name: "PArgs", Exported: true, Kind: "s", Tag: `positional-args:"yes" required:"yes"`, Sub: &StructDesc{Fields: []FieldDesc{
+				{Name: "Name", Exported: true, Kind: "v", Ty: "str"}}}}
+		}
+		leafs := []FieldDesc{
+			{Name: "Add", Exported: true, Kind: "s", Tag: `command:"add"`, Sub: &StructDesc{}},
+			{Name: "Del", Exported: true, Kind: "s", Tag: `command:"del"`, Sub: &StructDesc{}}}
+		var root *StructDesc
+		var argv []string
+		if level == 0 {
+			root = &StructDesc{Fields: append([]FieldDesc{item}, leafs...)}
+		} else {
+			remote := &StructDesc{Fields: append([]FieldDesc{item}, leafs...)}
+			root = &StructDesc{Fields: []FieldDesc{{Name: "V", Exported: true, Kind: "v", Ty: "bool", Tag: `short:"v"`},
+				{Name: "Remote", Exported: true, Kind: "s", Tag: `command:"remote"`, Sub: remote}}}
+			argv = []string{"remote"}
+		}
+		supplied := r.Intn(3) == 0
+		if supplied {
+			if positional {
+				argv = append(argv, "thename")
+			} else {
+				argv = append(argv, "--token=t")
+			}
+		}
+		tail := r.Intn(3) // 0: nothing, 1: an unknown word, 2: a proper command
+		if positional && !supplied && tail == 1 {
+			tail = 0 // (the word would be the positional value)
+		}
+		switch tail {
+		case 1:
+			argv = append(argv, "nosuchcmd")
+		case 2:
+			if positional && !supplied {
+				continue
+			}
+			argv = append(argv, "add")
+		}
+		cs := &Case{Name: "app", NsDelim: ".", EnvNsDelim: "_"}
+		cs.Build = []BuildOp{{Kind: "addgroup", Target: 1, Short: "Application Options", Struct: root}}
+		cs.Ops = []Op{{Kind: "parse", Args: argv}}
+		cs.Description = describeOps(cs)
+		var wantType int
+		var wantMsg string
+		switch {
+		case !supplied && !positional:
+			wantType, wantMsg = int(flags.ErrRequired), "the required flag `--token' was not specified"
+		case !supplied && positional:
+			wantType, wantMsg = int(flags.ErrRequired), "the required argument `Name` was not provided"
+		case tail == 0:
+			wantType = int(flags.ErrCommandRequired)
+		case tail == 1:
+			wantType = int(flags.ErrUnknownCommand)
+		}
+		c.RunCases([]*Case{cs}, func(cr *CaseResult) {
+			c.classifyCase(cr)
+			var obs parseObs
+			for _, o := range parseBlocks(cr) {
+				obs = o
+			}
+			c.Class(fmt.Sprintf("c06/before-command: level=%d positional=%v supplied=%v tail=%d", level, positional, supplied, tail))
+			in := map[string]interface{}{"case": cs.Description, "argv": argv}
+			var ok bool
+			want := "success"
+			if wantType == 0 {
+				ok = obs.panic == "" && obs.errKind == "ok"
+			} else {
+				want = fmt.Sprintf("*flags.Error type %d %q", wantType, wantMsg)
+				ok = obs.panic == "" && obs.errKind == "flags" && obs.errType == wantType && (wantMsg == "" || obs.errMsg == wantMsg)
+			}
+			if !ok {
+				in["case_file"] = c.saveCase(cr)
+			}
+			c.Check("a-missing-required-item-is-reported-whatever-else-is-missing", ok, "C06:before-command", in,
+				fmt.Sprintf("%s %s type %d %q", obs.panic, obs.errKind, obs.errType, obs.errMsg), want)
+		})
+	}
+}
